@@ -102,6 +102,8 @@ def judge(ctx, cases, mon, corr, mine, known, names):
         stats["violating_cases"].add(ci)
         if ctx.violations < 3:
             ctx.violation("%s_step%d_class%d" % (cases[ci]["spec"]["name"], si, cl), payload(cases[ci], si, cl, a, b, names))
+    # a broken correspondence never stops the search: the Coq monitors above were evaluated on EVERY step of EVERY case
+    # (monitor_all does not depend on the model), so a mismatch is reported as "no failing input" only when none of them fired
     bad = [(ci, si, r) for (ci, si, r) in corr if r in CORR]
     if bad and not stats["violating_cases"]:
         ci, si, r = bad[0]
@@ -172,8 +174,8 @@ def run(ctx, props, mine, known, names, what):
     own = [m for m in mon if m[2] in mine or m[2] in known]
     cov.update({
         "evaluations": rep["steps"], "distinct_nontrivial": rep["distinct_cases"],
-        "rule": "whole-application runs (real app.App through ABCI, Replica): replays of the recorded findings (all fixed: expected to HOLD) + 7 witnesses (incl. several unstakes of one delegator in one block through maturity and withdrawal; a self-staking candidate with a foreign public key + junk in signature slot 0) + the 5 directed "
-                "scenarios + adversarial-amount histories (22 value-moving kinds incl. self-staked STAKE/UNSTAKE/WITHDRAW; per kind also signature lists with a foreign key + junk in the first / last slot at a high fee price; x amounts {-2^64,-1,0,1,base-1,base,base+1,2^63-1,2^63,2^64-2,2^64,"
+        "rule": "whole-application runs (real app.App through ABCI, Replica): replays of the recorded findings (all fixed: expected to HOLD) + 8 witnesses (incl. a transaction refused in the fee step after its handler ran, followed at once by a spend from the account it had credited; several unstakes of one delegator in one block through maturity and withdrawal; a self-staking candidate with a foreign public key + junk in signature slot 0) + the 5 directed "
+                "scenarios + adversarial-amount histories (22 value-moving kinds incl. self-staked STAKE/UNSTAKE/WITHDRAW; per kind also a pair 'refused in the fee step (gas limit 1) after a successful handler / SEND by the account it touched last of more than, and of nearly all, it owns', and signature lists with a foreign key + junk in the first / last slot at a high fee price; x amounts {-2^64,-1,0,1,base-1,base,base+1,2^63-1,2^63,2^64-2,2^64,"
                 "2^64+1,10^40} relative to the observed source record x currencies {OLT,ETH,unregistered,empty}; every address field replaced by "
                 "other accounts, signed by the rightful signers / the attacker / the named account) + seeded random histories over ~35 kinds incl. OLVM "
                 "(genHistory); evaluations = ABCI steps (BeginBlock, DeliverTx, EndBlock) whose decoded ledger change was judged by the monitors; "
